@@ -43,6 +43,43 @@ fn peel(e: &Expr) -> &Expr {
     }
 }
 
+/// `{ let x [: T] = E; x }`  ->  `E`;  `{ let r [: T] = RECV; r.m(args) }`  ->  `(RECV).m(args)`
+fn two_statement_form(block: &syn::Block) -> Option<Expr> {
+    if block.stmts.len() != 2 {
+        return None;
+    }
+    let (Stmt::Local(l), Stmt::Expr(tail, None)) = (&block.stmts[0], &block.stmts[1]) else { return None };
+    let pat = match &l.pat {
+        syn::Pat::Type(pt) => &*pt.pat,
+        p => p,
+    };
+    let syn::Pat::Ident(pi) = pat else { return None };
+    let init = &l.init.as_ref()?.expr;
+    if l.init.as_ref()?.diverge.is_some() {
+        return None;
+    }
+    let name = pi.ident.to_string();
+    let tail = peel(tail);
+    if squash(&toks(tail)) == name {
+        return Some(peel(init).clone());
+    }
+    if let Expr::MethodCall(m) = tail {
+        if squash(&toks(&*m.receiver)) == name && !m.args.iter().any(|a| squash(&toks(a)).contains(&name)) {
+            let mut m2 = m.clone();
+            let recv_txt = squash(&toks(&**init));
+            // `&mut **self` / `&**self` as a receiver is `(**self)`, `*self` is `(*self)`
+            let recv: Expr = match recv_txt.as_str() {
+                "&mut**self" | "&**self" => syn::parse_str("(**self)").ok()?,
+                "*self" => syn::parse_str("(*self)").ok()?,
+                _ => (**init).clone(),
+            };
+            m2.receiver = Box::new(recv);
+            return Some(Expr::MethodCall(m2));
+        }
+    }
+    None
+}
+
 /// (callee, kind)
 fn classify(f: &syn::ImplItemFn, generics: &[String]) -> (String, String) {
     let params: Vec<String> = f
@@ -54,8 +91,11 @@ fn classify(f: &syn::ImplItemFn, generics: &[String]) -> (String, String) {
             FnArg::Receiver(_) => None,
         })
         .collect();
-    let Some(e) = single_expr(&f.block) else {
-        return ("?".into(), "other".into());
+    let owned: Option<Expr> = two_statement_form(&f.block);
+    let e: &Expr = match (&owned, single_expr(&f.block)) {
+        (Some(e), _) => e,
+        (None, Some(e)) => e,
+        (None, None) => return ("?".into(), "other".into()),
     };
     match e {
         Expr::MethodCall(m) => {
@@ -85,10 +125,18 @@ fn classify(f: &syn::ImplItemFn, generics: &[String]) -> (String, String) {
             // `G::m(&mut **self, args)` / `G::m(&**self, args)` with `G` a type parameter of the impl: the same
             // function `(**self).m(args)` resolves to (a type parameter has no inherent methods)
             let first = args.first().cloned().unwrap_or_default();
-            if (first == "&mut**self" || first == "&**self") && args[1..] == params[..] && p.qself.is_none() && p.path.segments.len() == 2
+            let derefs_box = first == "&mut**self" || first == "&**self" || first == "self.as_ref()" || first == "self.as_mut()";
+            if derefs_box && args[1..] == params[..] && p.qself.is_none() && p.path.segments.len() == 2
                 && generics.contains(&p.path.segments[0].ident.to_string())
             {
                 return (callee, "deref".into());
+            }
+            // `<G as Trait<K>>::m(&**self, args)`: the same, fully qualified
+            if let Some(q) = &p.qself {
+                let qt = squash(&toks(&*q.ty));
+                if derefs_box && args[1..] == params[..] && generics.contains(&qt) {
+                    return (callee, "deref".into());
+                }
             }
             // a reborrow of `self` (`&*self`, `&mut *self`) names the same receiver as `self` / `*self`
             let reborrow = (first == "&*self" || first == "&mut*self") && args[1..] == params[..];
